@@ -128,7 +128,10 @@ func c01Gen(g *simcore.Tape, thorough bool) *c01Scenario {
 	sc.Poll = simcore.Pick(g, []time.Duration{0, 0, 0, 2 * time.Second})
 	nn := g.Range(1, 3)
 	for i := 0; i < nn; i++ {
-		sc.Nodes = append(sc.Nodes, simconsul.Node{Name: c01NodeNames[(i+g.Intn(2))%len(c01NodeNames)], Addr: fmt.Sprintf("10.0.0.%d", 11+i), Serf: "passing"})
+		// node addresses: IPv4 (value 0) or an IPv6 literal (a service registered without an address of its own is
+		// reached at its node's address, which then has to be bracketed in the target URL)
+		addr := fmt.Sprintf(simcore.Pick(g, []string{"10.0.0.%d", "10.0.0.%d", "2001:db8::%x", "fd00::%x"}), 11+i)
+		sc.Nodes = append(sc.Nodes, simconsul.Node{Name: c01NodeNames[(i+g.Intn(2))%len(c01NodeNames)], Addr: addr, Serf: "passing"})
 	}
 	// distinct node names
 	seen := map[string]bool{}
